@@ -95,6 +95,13 @@ LABoundRef LRAModel::readLBoundRef(LVRef v) const { assert(hasLBound(v)); return
 const LABound& LRAModel::readLBound(const LVRef &v) const { return bs[readLBoundRef(v)]; }
 LABoundRef LRAModel::readUBoundRef(LVRef v) const { assert(hasUBound(v)); return int_ubounds[getVarId(v)].last(); }
 const LABound& LRAModel::readUBound(const LVRef &v) const { return bs[readUBoundRef(v)]; }
+bool LRAModel::isBoundAsserted(LVRef v, LABoundRef br) const {
+    auto const & bounds = bs[br].getType() == bound_u ? int_ubounds[getVarId(v)] : int_lbounds[getVarId(v)];
+    for (int i = bounds.size() - 1; i >= 0; --i) {
+        if (bounds[i] == br) { return true; }
+    }
+    return false;
+}
 void LRAModel::pushBacktrackPoint()      { bound_limits.push(bound_trace.size()); }
 void LRAModel::popBacktrackPoint() { popBounds(); bound_limits.pop(); }; // Returns the decision if the backtrack point had a decision
 int  LRAModel::getBacktrackSize() const { return bound_limits.size(); }
